@@ -73,12 +73,29 @@ def gen_cases(ctx):
                 "detectors": [{"kind": "field", "box": [[1, 5], [1, 4], [3, 6]], "name": "full"},
                               {"kind": "field", "box": [[1, 5], [1, 4], [3, 6]], "name": "gated", "switch": dsw}]}
         cases.append({"kind": "run", "spec": spec, "ssw": ssw, "dsw": dsw})
+    # gating through update_E / update_H for every kind of schedule at once: one scene, one dipole per schedule (distinct cells),
+    # zero fields, so whatever appears at a source's cell after update_E / update_H is that source's injection
+    T = 10
+    pats = [{}, {"on_for_time": 3.25}, {"on_for_periods": 1.5, "period": 2}, {"start_time": 4}, {"end_time": 5.5}, {"start_after_periods": 1.5, "period": 2},
+            {"end_after_periods": 2.25, "period": 2}, {"start_time": 2, "on_for_time": 3.5}, {"end_time": 8, "on_for_time": 2.5}, {"interval": 3},
+            {"fixed": [1, 4, 8]}, {"off": True}, {"on_for_time": 4.25, "interval": 2}, {"start_after_periods": 1, "on_for_periods": 2, "period": 1.5}]
+    if not ctx.quick:
+        for _ in range(10):
+            k = rng.sample(["start_time", "end_time", "on_for_time"], rng.randint(1, 2))
+            pats.append({kk: rng.choice([1.0, 2.5, 4.25, 6.0]) for kk in k})
+    srcs = []
+    for n, sw in enumerate(pats):
+        srcs.append({"kind": "dipole", "cell": [1 + n % 4, 1 + (n // 4) % 4, 2 + n // 16 + (n % 2)], "pol": n % 3, "mag": bool(n % 5 == 4), "switch": sw or None, "name": f"s{n}"})
+    cells = {tuple(x["cell"]) for x in srcs}
+    if len(cells) == len(srcs):
+        spec = {"shape": [6, 6, 6], "spacing": 5e-8, "steps": T, "bt": {f: "periodic" for f in ("min_x", "max_x", "min_y", "max_y", "min_z", "max_z")}, "sources": srcs}
+        cases.append({"kind": "gate", "spec": spec, "sws": pats})
     return cases
 
 
 def run_cases(ctx, cases):
     a = [c for c in cases if c["kind"] == "switch"]
-    b = [c for c in cases if c["kind"] == "run"]
+    b = [c for c in cases if c["kind"] in ("run", "gate")]
     from concurrent.futures import ThreadPoolExecutor
     with ThreadPoolExecutor(2) as ex:      # the pure-Python switch cases and the scene runs side by side
         fa = ex.submit(lambda: core.run_impl(IMPL, {"cases": a})["outs"] if a else [])
@@ -114,6 +131,14 @@ def coq_expr(case, out):
         for t, r in enumerate(out["ison"]):
             c, b = (r["error"], False) if isinstance(r, dict) else (0, r)
             parts.append(f"chk_b (is_on_at_time_step QcOF {sw} (fofZ (K := QcF) {zlit(t)} * {qlit(dt)})%Qc) {zlit(c)} {blit(b)}")
+        return "(" + " && ".join(parts) + ")%bool"
+    if case["kind"] == "gate":
+        T = out["T"]
+        parts = []
+        for sw, on, inj in zip(case["sws"], out["on"], out["inj"]):
+            sq = sw_coq(sw)
+            parts.append(f"chk_on (calculate_on_list QcOF {sq} {zlit(T)} (q 1 1)) 0 {lst(on, blit)}")
+            parts.append(f"match calculate_on_list QcOF {sq} {zlit(T)} (q 1 1) with SOk on => forallb (fun p => implb (snd p) (fst p)) (combine on {lst(inj, blit)}) | _ => false end")
         return "(" + " && ".join(parts) + ")%bool"
     T = out["T"]
     s, d = sw_coq(case["ssw"]), sw_coq(case["dsw"])
@@ -194,6 +219,21 @@ def predicate(case, out):
         if out["idx"] != idx:
             return (tag, f"index map {out['idx']} is not the running count {idx}")
         return None
+    if case["kind"] == "gate":
+        T = out["T"]
+        seen = 0
+        for n, (sw, on, inj) in enumerate(zip(case["sws"], out["on"], out["inj"])):
+            exp = expected_on(sw, T, 1.0)
+            tag = "gate-" + ",".join(f"{k}" for k in sorted(sw)) if sw else "gate-default"
+            if on != exp:
+                return (tag, f"source with schedule {sw}: on array {on} differs from the window rule {exp}")
+            bad = [t for t in range(T) if inj[t] and not exp[t]]
+            if bad:
+                return (tag, f"source with schedule {sw} injects at inactive steps {bad} (active steps {[t for t in range(T) if exp[t]]})")
+            seen += sum(1 for t in range(T) if inj[t])
+        if seen < 10:
+            return ("gate-vacuous", "sources almost never inject: vacuous gating test")
+        return None
     T = out["T"]
     tag = "run-" + core.case_hash({"s": case["ssw"], "d": case["dsw"]})[:10]
     s_on = expected_on(case["ssw"], T, 1.0); d_on = expected_on(case["dsw"], T, 1.0)
@@ -213,13 +253,15 @@ def predicate(case, out):
 
 
 def nontrivial(case, out):
+    if case["kind"] == "gate":
+        return "crash" not in out
     on = out.get("on") if case["kind"] == "switch" else out.get("det_on")
     return isinstance(on, list) and any(on) and not all(on)
 
 
 def classify(case, out):
-    if case["kind"] == "run":
-        return "run"
+    if case["kind"] in ("run", "gate"):
+        return case["kind"]
     on = out.get("on")
     if isinstance(on, dict):
         return f"error-{on['error']}"
